@@ -33,12 +33,14 @@ def body(ctx):
         if v[0] in ('seal', 'later-send', 'push-after-seal') and 'seal' not in done:
             done.add('seal')
             ctx.report('seal-discipline', f"sealing of the output buffer: {str(v)[:300]}", {'solver_counterexample': str(v)[:400]}, SEAL_TEST, inject_into='src/io_loop/mod.rs', profiles=('dev',))
-        elif v[0] == 'run_connection' and 'result' not in done:
+        elif v[0] in ('run_connection', 'close_impl') and 'result' not in done:
             done.add('result')
+            if v[0] == 'close_impl':
+                v = ('close_impl', 'join=' + str(v[1]), v[2], None)
             code = v[3] if v[3] is not None else 320
             ctx.report('io-thread-result', f"run_connection: final state {v[1]} reported as {v[2]}", {'final_state': v[1], 'result': v[2], 'reply_code': v[3]},
                        RESULT_TEST.replace('MODEL_CODE', str(code)), profiles=('dev',), hang_is_violation=True)
-        elif v[0] not in ('seal', 'later-send', 'push-after-seal', 'run_connection'):
+        elif v[0] not in ('seal', 'later-send', 'push-after-seal', 'run_connection', 'close_impl'):
             ctx.inconclusive.append(f"C08 counterexample (no native replay generator yet): {v}")
 
 
@@ -678,6 +680,16 @@ def handle_close(ctx, ex, prog, viol):
             m = ctx.decide(f"c08.handle-close[{reply}]", s.pc, z3.And(*c), group='client close = one ConnectionClose message holding exactly Connection.Close(200, goodbye, 0, 0) on channel 0; result is the reply')
             if m is not None:
                 viol.append(('handle-close', reply, out, ctx.explain(m, c)))
+
+
+def close_reports_the_cause(ctx, prog):
+    """for C20: Connection::close reports the I/O thread's error (the server's close) rather than its own failed request"""
+    ex = io_executor(ctx, prog, extra=stubs())
+    v = []
+    close_impl(ctx, ex, prog, v)
+    if v:
+        ctx.report('io-thread-result', f"Connection::close_impl with the I/O thread result '{v[0][1]}' returns {v[0][2]}", {'join': v[0][1], 'returned': v[0][2]},
+                   RESULT_TEST.replace('MODEL_CODE', '320'), profiles=('dev',), hang_is_violation=True)
 
 
 def close_impl(ctx, ex, prog, viol):
